@@ -119,7 +119,10 @@ def scn_decode(c, table, fill, si, tr):
     ds, t, nrows, width = _mesh(c, table, fill, si, tr)
     conv = it.instantiate(cls(it, 'emsarray.conventions.ugrid', 'UGrid'), [ds], {})
     topo = expect_ok(c, 'topology', lambda: it.getattr(conv, 'topology'))
+    from pyvc.api import check_unmodified, snapshot
+    snap = snapshot(ds)
     arr = expect_ok(c, f'{table}_array returns', lambda: it.getattr(topo, table + '_array'))
+    check_unmodified(c, ds, snap, 'the dataset whose table is decoded (a later reader of the same arrays sees the file as stored)')
     if isinstance(si, str):
         c.check('a string start_index is accepted with a warning', any(e[0] == 'warning' for e in c.events))
     c.check('rows first, whatever the stored order', len(arr.shape) == 2 and s_eq(arr.shape[0], nrows) and s_eq(arr.shape[1], width))
